@@ -1,3 +1,51 @@
-import Orda.Model.Api
+/-
+C02 — Conflicts resolve by operation timestamp, identically on every replica.
+The outcome is a fixed function (Spec/Denote) of the SET of operations.
+-/
+import Orda.Proofs.MapCounter
 namespace Orda.Props.C02
+open Orda
+
+/-- map: after ANY causal application order, every key holds the value of the put/remove with the
+    greatest timestamp (absent if that is a remove) -/
+theorem map_key_is_max_timestamp (ops : List Op) (hc : MapCausal ops) (hd : DistinctTs ops) (k : String) :
+    (mapApplyAll LwwMap.empty ops).get k = Spec.mapGet ops k :=
+  map_denote ops hc hd k
+
+/-- map: Size is the number of live keys of that outcome -/
+theorem map_size_is_live_keys (ops : List Op) (hc : MapCausal ops) (hd : DistinctTs ops) :
+    (mapApplyAll LwwMap.empty ops).size = ((Spec.mapView ops).length : Int) :=
+  map_size_denote ops hc hd
+
+/-- the rule does not depend on arrival order -/
+theorem map_rule_order_independent (ops ops' : List Op) (hp : ops.Perm ops') (hd : DistinctTs ops) (k : String) :
+    Spec.mapGet ops k = Spec.mapGet ops' k :=
+  spec_mapGet_perm ops ops' hp hd k
+
+/-- a local remove is the remote application of its own operation (so the issuing replica computes
+    the same outcome as everyone else) -/
+theorem map_local_remove_is_remote (m : LwwMap) (k : String) (ts : Ts) (e : MEntry)
+    (hf : m.find k = some e) (hl : e.v.isSome = true) (hn : e.t.cmp ts = .lt) :
+    (m.removeLocal k ts).1 = (m.removeRemote k ts).1 :=
+  removeLocal_eq_removeRemote m k ts e hf hl hn
+
+/-- counter: the value is the sum of all increments with 32-bit wrap-around -/
+theorem counter_is_wrapped_sum (ops : List Op) : ops.foldl counterApply 0 = Spec.counter ops :=
+  counter_denote ops
+
+theorem counter_in_int32 (x : Int) : -2147483648 ≤ wrap32 x ∧ wrap32 x < 2147483648 := wrap32_range x
+
+-- non-vacuity: a concrete conflict (remove older than a concurrent put) resolves to the put
+example :
+    let ops : List Op := [⟨⟨0, 1, "a", 1⟩, .put "k" (.num 1)⟩, ⟨⟨0, 3, "b", 1⟩, .put "k" (.num 2)⟩,
+                          ⟨⟨0, 2, "a", 2⟩, .remove "k"⟩]
+    MapCausal ops ∧ DistinctTs ops := by
+  refine ⟨?_, ?_⟩
+  · intro i hi k hb
+    match i, hi with
+    | 0, _ => simp at hb
+    | 1, _ => simp at hb
+    | 2, _ => exact ⟨0, by omega, .num 1, by simp_all⟩
+  · simp [DistinctTs, Ts.cmp, OpId.ts, strCmp]
+
 end Orda.Props.C02
